@@ -6,6 +6,7 @@
 //  bwdpt2 <op> <y> <fv> <v1> <v2> => <x1'> <x2'>
 #include "common.h"
 #include "mpfr_oracle.h"
+#include "expr_io.h"
 using namespace ibex; using namespace vh; using namespace std;
 
 static long emitted = 0;
@@ -160,6 +161,58 @@ static void do_atan2(Rng& r, const Interval& y0, const Interval& x0) {
   }
 }
 
+// ---- vector / matrix backward operators: planted consistent tuples (small dyadic rationals, decided exactly by the driver) ----
+//  bwdv <op> <y> <x1> <x2> <p1> <p2> => <x1'> <x2'> <flag>      (matrix tokens r.c.itv/...; planted tokens are degenerate matrices)
+static double dy(Rng& r) { return r.range(-12, 12) / 4.0; }
+static IntervalMatrix planted_mat(Rng& r, int rows, int cols) { IntervalMatrix m(rows, cols); for (int i = 0; i < rows; i++) for (int j = 0; j < cols; j++) m[i][j] = Interval(dy(r)); return m; }
+static IntervalMatrix around(Rng& r, const IntervalMatrix& p) {
+  IntervalMatrix m(p.nb_rows(), p.nb_cols());
+  for (int i = 0; i < p.nb_rows(); i++) for (int j = 0; j < p.nb_cols(); j++) { double c = p[i][j].lb();
+    switch (r.below(6)) { case 0: m[i][j] = Interval(c); break; case 1: m[i][j] = Interval(c - r.range(0, 8) / 4.0, c + r.range(0, 8) / 4.0); break; case 2: m[i][j] = Interval(c, c + r.range(0, 16) / 4.0); break;
+      case 3: m[i][j] = Interval(c - r.range(0, 16) / 4.0, c); break; case 4: m[i][j] = r.coin() ? Interval(c, POS_INFINITY) : Interval(NEG_INFINITY, c); break; default: m[i][j] = Interval(c - 0.5, c + 0.5); } }
+  return m;
+}
+static IntervalVector colv(const IntervalMatrix& m) { return m.col(0); }
+static IntervalVector rowv(const IntervalMatrix& m) { return m.row(0); }
+static IntervalMatrix ascol(const IntervalVector& v) { IntervalMatrix m(v.size(), 1); m.set_col(0, v); return m; }
+static IntervalMatrix asrow(const IntervalVector& v) { IntervalMatrix m(1, v.size()); m.set_row(0, v); return m; }
+static void do_vec(Rng& r) {
+  int kind = r.below(9);
+  int n = r.range(1, 6), m = r.range(1, 4), k = r.range(1, 4);
+  double ratio = r.coin() ? 0.05 : (r.coin() ? 0.1 : 0.9);
+  const char* op = ""; IntervalMatrix P1(1, 1), P2(1, 1), PY(1, 1);
+  switch (kind) {
+    case 0: op = "vadd"; P1 = planted_mat(r, n, 1); P2 = planted_mat(r, n, 1); PY = P1 + P2; break;
+    case 1: op = "vsub"; P1 = planted_mat(r, n, 1); P2 = planted_mat(r, n, 1); PY = P1 - P2; break;
+    case 2: op = "smulv"; P1 = planted_mat(r, 1, 1); P2 = planted_mat(r, n, 1); PY = P1[0][0] * P2; break;
+    case 3: op = "dot"; P1 = planted_mat(r, 1, n); P2 = planted_mat(r, n, 1); PY = P1 * P2; break;
+    case 4: op = "mv"; P1 = planted_mat(r, m, n); P2 = planted_mat(r, n, 1); PY = P1 * P2; break;
+    case 5: op = "vm"; P1 = planted_mat(r, 1, n); P2 = planted_mat(r, n, m); PY = P1 * P2; break;
+    case 6: op = "mm"; P1 = planted_mat(r, m, n); P2 = planted_mat(r, n, k); PY = P1 * P2; break;
+    case 7: op = "madd"; P1 = planted_mat(r, m, n); P2 = planted_mat(r, m, n); PY = P1 + P2; break;
+    default: op = "smulm"; P1 = planted_mat(r, 1, 1); P2 = planted_mat(r, m, n); PY = P1[0][0] * P2; break;
+  }
+  // all planted products are exact (small dyadic numbers): PY is degenerate
+  IntervalMatrix Y = around(r, PY), X1 = around(r, P1), X2 = around(r, P2);
+  if (r.coin(15)) Y = around(r, planted_mat(r, PY.nb_rows(), PY.nb_cols()));  // probably inconsistent
+  IntervalMatrix A = X1, B = X2; bool fl = true;
+  if (getenv("VERIF_TRACE")) { fprintf(stderr, "TRACE bwdv %s %s %s %s ratio=%g\n", op, mtok(Y).c_str(), mtok(X1).c_str(), mtok(X2).c_str(), ratio); fflush(stderr); }
+  switch (kind) {
+    case 0: { IntervalVector a = colv(A), b = colv(B); fl = bwd_add(colv(Y), a, b); A = ascol(a); B = ascol(b); } break;
+    case 1: { IntervalVector a = colv(A), b = colv(B); fl = bwd_sub(colv(Y), a, b); A = ascol(a); B = ascol(b); } break;
+    case 2: { Interval a = A[0][0]; IntervalVector b = colv(B); fl = bwd_mul(colv(Y), a, b); A[0][0] = a; B = ascol(b); } break;
+    case 3: { IntervalVector a = rowv(A), b = colv(B); fl = bwd_mul(Y[0][0], a, b); A = asrow(a); B = ascol(b); } break;
+    case 4: { IntervalVector b = colv(B); fl = bwd_mul(colv(Y), A, b, ratio); B = ascol(b); } break;
+    case 5: { IntervalVector a = rowv(A); fl = bwd_mul(rowv(Y), a, B, ratio); A = asrow(a); } break;
+    case 6: fl = bwd_mul(Y, A, B, ratio); break;
+    case 7: fl = bwd_add(Y, A, B); break;
+    default: { Interval a = A[0][0]; fl = bwd_mul(Y, a, B); A[0][0] = a; } break;
+  }
+  check_round_up(op);
+  auto mt = [](const IntervalMatrix& q) { return q.is_empty() ? std::string("E") : mtok(q); };
+  EMIT("bwdv %s %s %s %s %s %s => %s %s %s\n", op, mtok(Y).c_str(), mtok(X1).c_str(), mtok(X2).c_str(), mtok(P1).c_str(), mtok(P2).c_str(), mt(A).c_str(), mt(B).c_str(), tok(fl).c_str());
+}
+
 int main(int argc, char** argv) {
   string wl = argc > 1 ? argv[1] : "c03";
   uint64_t seed = argc > 2 ? strtoull(argv[2], 0, 10) : 1;
@@ -177,6 +230,7 @@ int main(int argc, char** argv) {
       for (auto& op : OP2) do2(r, op, x1, x2);
       for (auto& op : OP1) do1(r, op, x1);
       dopow(r, r.range(-5, 7), x1); dopow(r, r.range(1, 4), x2);
+      for (int k = 0; k < 4; k++) do_vec(r);
     }
   } else if (wl == "c03t") {
     for (auto& x : LI) for (auto& op : OPT) if (full || r.coin(25)) doT(r, op, x);
